@@ -15,11 +15,18 @@ import (
 
 func init() { extraFacts = append(extraFacts, scheduleFacts) }
 
-var trackedTasks = map[string]bool{"gossipRound": true, "UpdateLiveness": true, "CompactLocal": true, "RemoveExpired": true, "RemoveExpiredAt": true}
+// pinned names of the tracked operations (resolved to their current names through the baseline)
+var trackedPinned = map[string]string{"Gossip.gossipRound": "gossipRound", "clusterState.UpdateLiveness": "UpdateLiveness",
+	"clusterState.CompactLocal": "CompactLocal", "clusterState.RemoveExpired": "RemoveExpired", "clusterState.RemoveExpiredAt": "RemoveExpiredAt"}
 
 func scheduleFacts() string {
 	var alone []string
 	found := false
+	trackedTasks := map[string]string{} // current method name -> pinned name
+	for q, pinned := range trackedPinned {
+		trackedTasks[resolveName("pkg/gossip", q)] = pinned
+	}
+	schedName := resolveName("pkg/gossip", "Gossip.scheduleFunc")
 	for _, f := range pkgFiles("pkg/gossip") {
 		ast.Inspect(f, func(n ast.Node) bool {
 			ce, ok := n.(*ast.CallExpr)
@@ -33,7 +40,7 @@ func scheduleFacts() string {
 			case *ast.Ident:
 				name = fun.Name
 			}
-			if name != "scheduleFunc" {
+			if name != schedName {
 				return true
 			}
 			fl, ok := ce.Args[1].(*ast.FuncLit)
@@ -44,8 +51,10 @@ func scheduleFacts() string {
 			var tasks []string
 			ast.Inspect(fl.Body, func(m ast.Node) bool {
 				if c, ok := m.(*ast.CallExpr); ok {
-					if se, ok := c.Fun.(*ast.SelectorExpr); ok && trackedTasks[se.Sel.Name] {
-						tasks = append(tasks, se.Sel.Name)
+					if se, ok := c.Fun.(*ast.SelectorExpr); ok {
+						if pinned, ok := trackedTasks[se.Sel.Name]; ok {
+							tasks = append(tasks, pinned)
+						}
 					}
 				}
 				return true
